@@ -9,6 +9,24 @@ pub fn list_from_spec(spec: &str) -> Option<SymbolList> {
         "default" => Some(SymbolList::default()),
         "all" => Some(SymbolList::all()),
         "empty" => Some(SymbolList::with_whitelist(Vec::<SymbolSize>::new())),
+        s if s.starts_with("ext:") => {
+            // grown one size at a time with Extend, in the order given
+            let mut names = s[4..].split(',');
+            let mut l: SymbolList = cat::by_name(names.next()?)?.size.into();
+            for n in names {
+                l.extend(core::iter::once(cat::by_name(n)?.size));
+            }
+            Some(l)
+        }
+        s if s.starts_with("dflt+:") => {
+            let mut l = SymbolList::default();
+            let mut v = Vec::new();
+            for n in s[6..].split(',') {
+                v.push(cat::by_name(n)?.size);
+            }
+            l.extend(v);
+            Some(l)
+        }
         s => {
             let mut v = Vec::new();
             for n in s.split(',') {
@@ -27,6 +45,14 @@ pub fn rows_from_spec(spec: &str) -> Vec<&'static Row> {
         "empty" => vec![],
         s => {
             let mut v: Vec<&'static Row> = Vec::new();
+            let s = if let Some(rest) = s.strip_prefix("ext:") {
+                rest
+            } else if let Some(rest) = s.strip_prefix("dflt+:") {
+                v.extend(CAT.iter().filter(|r| r.iso16022));
+                rest
+            } else {
+                s
+            };
             for n in s.split(',') {
                 if let Some(r) = cat::by_name(n) {
                     if !v.iter().any(|x| x.name == r.name) {
